@@ -13,9 +13,15 @@ use serde_json::json;
 pub struct Mon {
     quoted_close_fee: Option<(u128, u128)>,
     interesting: u64,
+    /// (toll, spread) of each vAMM as *submitted* by its owner (instantiate message, then accepted UpdateConfig messages):
+    /// the ratios are not read back from the vAMM's Config answer
+    ratios: Vec<(u128, u128)>,
 }
 
 impl Monitor for Mon {
+    fn begin(&mut self, w: &mut World, _out: &mut Outcome) {
+        self.ratios = w.cfg.vamms.iter().map(|v| (v.toll, v.spread)).collect();
+    }
     fn before(&mut self, it: &mut Interp, act: &Act, pre: &Obs, _out: &mut Outcome) -> Option<Violation> {
         self.quoted_close_fee = None;
         if let Act::Close { t, v, .. } = act {
@@ -32,6 +38,16 @@ impl Monitor for Mon {
         if !s.res.ok {
             return None;
         }
+        if let Act::VammAdmin { v, msg: vamm::ExecuteMsg::UpdateConfig { toll_ratio, spread_ratio, .. }, .. } = s.act {
+            if let Some(r) = self.ratios.get_mut(*v) {
+                if let Some(t) = toll_ratio {
+                    r.0 = t.u128();
+                }
+                if let Some(sp) = spread_ratio {
+                    r.1 = sp.u128();
+                }
+            }
+        }
         let d = w.d;
         let (fund, pool) = (w.fund.to_string(), w.fee_pool.to_string());
         let to_fund = flow(&s.res.xfers, None, &fund);
@@ -39,9 +55,13 @@ impl Monitor for Mon {
         match s.act {
             Act::Open { v, margin, lev, .. } => {
                 let vc = &s.pre.v[*v].cfg;
+                let (toll_m, spread_m) = self.ratios.get(*v).copied().unwrap_or((vc.toll_ratio.u128(), vc.spread_ratio.u128()));
+                if (toll_m, spread_m) != (vc.toll_ratio.u128(), vc.spread_ratio.u128()) {
+                    out.count("config_answer_differs_from_submitted_ratios");
+                }
                 let n = mul_div_floor(*margin, *lev, d);
-                let exp_spread = fee(n, vc.spread_ratio.u128(), d);
-                let exp_toll = fee(n, vc.toll_ratio.u128(), d);
+                let exp_spread = fee(n, spread_m, d);
+                let exp_toll = fee(n, toll_m, d);
                 out.count("open_fee_checks");
                 if to_fund != exp_spread || to_pool != exp_toll {
                     return Some(
